@@ -21,12 +21,16 @@ pub fn c08(ctx: &Ctx, subj: &dyn DynSubject, ty: &Ty, rep: &mut Report) {
         let enc = model_enc_fit(ctx, subj, ty, v, bytes.len(), log)?;
         let path = ctx.tmp.join(format!("c08-{}-{:?}.bin", subj.index(), std::thread::current().id()).replace(['(', ')'], ""));
         // history: a store that fails after its file was opened (the device is full) must not influence the next one
-        let failed_first = ent.pick(3) == 0 && std::path::Path::new("/dev/full").exists() && !bytes.is_empty();
+        let failed_first = ent.pick(3) == 0 && dev_full_ok() && !bytes.is_empty();
         if failed_first {
             log.classes.push("store-after-failed-store".into());
             log.extra_evals += 1;
             match guard(|| subj.store(v, std::path::Path::new("/dev/full"))) {
-                Ok(Ok(())) => return Err(Fail::new("store-to-full-device-succeeded", "store to /dev/full returned Ok although no byte can be written there".to_string())),
+                Ok(Ok(())) => {
+                    let replaced = !dev_full_ok();
+                    repair_dev_full();
+                    return Err(Fail::new("store-to-full-device-succeeded", format!("store to /dev/full returned Ok although no byte can be written there{}", if replaced { " (and the device node was replaced by a regular file)" } else { "" })));
+                }
                 Ok(Err(_)) => {}
                 Err(p) => return Err(Fail::new(&format!("store-panic:{}", panic_class(&p)), format!("store to /dev/full panicked: {}", p))),
             }
